@@ -91,8 +91,8 @@ def text_correspondence(ctx):
     try:
         impl = open(ip).read().splitlines()
         desc = open(os.path.join(d, "desc.txt")).read().splitlines()
-        acc = {"tamper": 0, "truncate": 0, "original": 0}
-        tot = {"tamper": 0, "truncate": 0, "original": 0, "set_digit": 0}
+        acc = {"tamper": 0, "truncate": 0, "original": 0, "sign": 0}
+        tot = {"tamper": 0, "truncate": 0, "original": 0, "set_digit": 0, "sign": 0}
         for k in range(min(len(impl), len(desc))):
             for key in tot:
                 if ": " + key in desc[k]:
